@@ -128,6 +128,27 @@ func NewRouter(serverAddr net.Addr, latency time.Duration, wire *wiretap.Wire, s
 	return r
 }
 
+// SetOnEmit installs (or removes, with nil) the OnEmit hook; safe while the router is running.
+func (r *Router) SetOnEmit(f func(d *wiretap.DatagramInfo) *Action) {
+	r.mu.Lock()
+	r.OnEmit = f
+	r.mu.Unlock()
+}
+
+// GetOnEmit returns the current OnEmit hook.
+func (r *Router) GetOnEmit() func(d *wiretap.DatagramInfo) *Action {
+	r.mu.Lock()
+	defer r.mu.Unlock()
+	return r.OnEmit
+}
+
+// SetOnDeliver installs (or removes) the OnDeliver hook; safe while the router is running.
+func (r *Router) SetOnDeliver(f func(d *wiretap.DatagramInfo, mod wiretap.Mod)) {
+	r.mu.Lock()
+	r.OnDeliver = f
+	r.mu.Unlock()
+}
+
 // Now is the virtual time since the router was created.
 func (r *Router) Now() time.Duration { return time.Since(r.start) }
 
